@@ -60,7 +60,7 @@ def handle (j : Json) : Json :=
   else if op == "complete" then
     let ctx := (jarr j "ctx").map (fun e => (asStr (asArr e)[0]!, (asStr (asArr e)[1]!).toList))
     match completeUrl ctx (jstr j "p").toList with
-    | .ok u => Json.mkObj [("schema", js u.schema), ("host", js u.host), ("segs", jpath (loc u))]
+    | .ok u => Json.mkObj [("schema", js u.schema), ("host", js u.host), ("segs", jpath (loc u)), ("dir", Json.bool (dirForm u))]
     | .error e => errJson e
   else if op == "bulk" then
     let tb := tablesOf (jget j "tables")
